@@ -120,7 +120,7 @@ func btemplates(thorough bool) []btpl {
 		{Name: "halt-caught-callee", Halting: true, Prog: "A[ET{EBf[EPX!]E}{E}E]"},
 		{Name: "halt-callback", Halting: true, Prog: "A[$sB[EX]D]"},
 		{Name: "halt-neo-callback", Halting: true, Prog: "A[$nB[E]X]"},
-		{Name: "halt-setfee-rolled-back", Halting: true, Committee: true, Prog: "A[T{Bf[F!]}{}P]"},
+		{Name: "halt-setfee-rolled-back", Halting: true, Committee: true, Prog: "A[T{Bf[F!]}{}E]"},
 		{Name: "halt-setfee", Halting: true, Committee: true, Prog: "A[FT{Cf[$gB[E]!]}{}]"},
 	}
 	_ = thorough
@@ -444,6 +444,9 @@ func (ba *batomic) run(bc bcase) (what, detail []string, err error) {
 		for p := 0; p < nPrinc; p++ {
 			allowed[fmt.Sprintf("%d:%x", nativeids.GasToken, accountKey(w.hashes[p]))] = true
 			allowed[fmt.Sprintf("%d:%x", nativeids.NeoToken, accountKey(w.hashes[p]))] = true
+		}
+		if hasNeo(mustParse(bc.Tpl.Prog)) {
+			allowed[fmt.Sprintf("%d:0b", nativeids.GasToken)] = true // total supply: the GAS bonus of a NEO transfer is minted
 		}
 		ks := diffKeys(o1, o2)
 		for _, k := range ks {
